@@ -378,20 +378,25 @@ class C36(core.Check):
     # ------------------------------------------------------------------
     def post_batch(self, tier, stats):
         verif_seed = int(os.environ.get('VERIF_SEED', '0') or 0)
-        n = 64 if tier == 'quick' else 600
+        n = 72 if tier == 'quick' else 600
         rng = PRNG(core.derive(verif_seed, 'C36', 'shutdown'))
         cases = []
         for i in range(n):
-            scen = ['exited_unreclaimed', 'alive_in_mailbox', 'parked_inside_callback', 'mixed', 'collect_then_exit'][i % 5]
+            scen = ['exited_unreclaimed', 'alive_in_mailbox', 'parked_inside_callback', 'mixed', 'collect_then_exit',
+                    'blocked_in_c_joined_at_exit'][i % 6]
             cases.append(dict(scenario=scen, nthreads=rng.randint(1, 4), calls=rng.randint(1, 5),
-                              variant='T' if rng.chance(0.5) else 'N', run_index='S%d' % i, shutdown=True))
+                              variant='T' if rng.chance(0.5) else 'N', run_index='S%d' % i, shutdown=True,
+                              malloc_debug=(i % 2 == 0)))
         import concurrent.futures
         viol = []
         bad = 0
 
         def one(case):
+            env = dict(os.environ)
+            if case.get('malloc_debug'):
+                env['PYTHONMALLOC'] = 'debug'      # freed blocks are filled: a stale pointer is visible at once
             p = subprocess.run([sys.executable, '-B', SHUTDOWN_SCRIPT, json.dumps(case)], stdout=subprocess.PIPE,
-                               stderr=subprocess.PIPE, timeout=120)
+                               stderr=subprocess.PIPE, timeout=120, env=env)
             return case, p.returncode, p.stdout.decode('utf-8', 'replace'), p.stderr.decode('utf-8', 'replace')
         with concurrent.futures.ThreadPoolExecutor(max_workers=core.NCPU) as ex:
             results = list(ex.map(one, cases))
@@ -407,6 +412,8 @@ class C36(core.Check):
                 problem = 'interpreter shutdown ended with status %d: %s' % (rc, se[-300:])
             elif 'Fatal Python error' in se:
                 problem = 'fatal error at interpreter shutdown: %s' % se[-300:]
+            elif case['scenario'] == 'blocked_in_c_joined_at_exit' and 'ATEXIT-JOINED' not in se:
+                problem = 'the atexit handler that joins the remaining foreign threads did not complete: %s' % se[-300:]
             if problem:
                 bad += 1
                 if len(viol) < 2:
@@ -425,11 +432,15 @@ class _C36(C36):
         if case.get('shutdown'):
             # replay of a shutdown scenario: run it in a child process and judge the exit
             out = Outcome()
+            env = dict(os.environ)
+            if case.get('malloc_debug'):
+                env['PYTHONMALLOC'] = 'debug'
             p = subprocess.run([sys.executable, '-B', SHUTDOWN_SCRIPT, json.dumps(case)], stdout=subprocess.PIPE,
-                               stderr=subprocess.PIPE, timeout=120)
+                               stderr=subprocess.PIPE, timeout=120, env=env)
             so, se = p.stdout.decode('utf-8', 'replace'), p.stderr.decode('utf-8', 'replace')
             out.digest = digest_of([case['scenario'], p.returncode])
-            if 'END-MARKER' not in so or p.returncode != 0 or 'Fatal Python error' in se:
+            if 'END-MARKER' not in so or p.returncode != 0 or 'Fatal Python error' in se or (
+                    case['scenario'] == 'blocked_in_c_joined_at_exit' and 'ATEXIT-JOINED' not in se):
                 out.violate('C36.4', 'shutdown scenario %s: rc %d %s' % (case['scenario'], p.returncode, se[-200:]), 0)
             return out
         return C36.execute(self, case)
